@@ -18,7 +18,10 @@ RECURSIVE IsSubSeq(_, _)
 IsSubSeq(x, y) == IF x = <<>> THEN TRUE ELSE IF y = <<>> THEN FALSE
                   ELSE IF Head(x) = Head(y) THEN IsSubSeq(Tail(x), Tail(y)) ELSE IsSubSeq(x, Tail(y))
 
-Conforms(a, pred, o) ==
+\* zero-value query records (closed channels, see IPCQuery.tla) may precede a done: not predicted here
+NoZero(recs) == SelectSeq(recs, LAMBDA r : ~(r.k \in {"ack", "response"} /\ r.n = 0))
+Conforms(a, pred, o0) ==
+  LET o == [o0 EXCEPT !.recs = NoZero(@)] IN
   /\ pred.rep = o.rep
   /\ \A s \in SeqIds :
        IF a.a = "burst" THEN /\ IsSubSeq(Proj(o.recs, s), Proj(pred.recs, s))
@@ -40,7 +43,7 @@ Step ==
           IN  /\ C' = r.C /\ obs' = o /\ last' = Line.act /\ steps' = steps + 1
               /\ M' = MonStep(M, a, o)
               /\ ~Conforms(a, r, o) => PrintT(<<"DIVERGE", l>>)
-  /\ \A c \in M'.bad \ M.bad : PrintT(<<"MONITOR", l, {c}, {}>>)
+  /\ \A c \in M'.bad \ M.bad : PrintT(<<"MONITOR", l, {c}, IF c = "C25_q_bogus_record" THEN M'.tags ELSE {}>>)
 TraceNext == Step
 TraceSpec == TraceInit /\ [][TraceNext]_tvars
 Done == l = Len(Trace) + 1 => PrintT(<<"DONE", l>>)
